@@ -111,6 +111,10 @@ OnEnter(s, e) ==
     IF s.phase = "idle" THEN
         IF e.n = s.cur.ty /\ e.loc = <<>> /\ e.vk = KindOfV(s.cur.val) /\ e.sc = SummaryOf(s.cur.val)
         THEN [s EXCEPT !.stack = PushRoot(s.cur), !.phase = "running"]
+        \* the serde_json value source is deserr's own (src/serde_json.rs): when it presents something else than the document, that is
+        \* a deviation of the code under test (C13: kinds as serde_json holds them; C04: what reports quote), not of the harness
+        ELSE IF e.n = s.cur.ty /\ e.loc = <<>> /\ s.cur.src = "json"
+             THEN Flag(s, {"C13", "C04", "C05"}, "the serde_json value source hands over another value than the document holds")
         ELSE Flag(s, {"CONF"}, "first event is not the root type entered at the origin with the payload")
     ELSE IF s.phase # "running" \/ Len(s.stack) = 0 THEN Flag(s, {"CONF"}, "enter outside a running call")
     ELSE IF s.cur.stopped THEN Flag(s, {"C03"}, "something further is examined although the error type answered stop and was never told to continue since")
